@@ -202,8 +202,9 @@ theorem inv_after_scale (P : Pose ℝ) (hP : P.IsRigid) (k : ℝ) (p : V3 ℝ) :
     (P.scale k).invRotateTranslate p = P.R.transpose.mulVec (V3.sub p (V3.smul k P.t)) :=
   ⟨inv_rt_rt (scale_rigid hP k) p, rfl⟩
 
-/-- a pose built from ANY rotation vector (the matrix scipy computes: Rodrigues) is rigid -/
-theorem from_rot_vec_rigid (r t : V3 ℝ) : (Pose.fromRotVec r t).IsRigid := fromRotVec_rigid r t
+/-- a pose built from ANY rotation vector (the matrix scipy computes: Rodrigues) is rigid, and a proper rotation -/
+theorem from_rot_vec_rigid (r t : V3 ℝ) :
+    (Pose.fromRotVec r t).IsRigid ∧ M3.det (Pose.fromRotVec r t).R = 1 := ⟨fromRotVec_rigid r t, rotVecMatrix_det r⟩
 
 /-! ### Views of one rotation (PARTIAL: about the specification of the scipy conversions, see docs/C15.md)
 
